@@ -101,6 +101,10 @@ type c07Ctl struct {
 	kind    string
 	vetoes  map[string]bool // "store/C|U|D/id"
 	persist map[string]bool // levels whose PersistEntity ended with an error in the bucket they wrote to
+	// store_c07_panic.go: where the harness made code panic in the current transaction; the level whose PersistEntity
+	// panics during the operation that is running
+	panics       map[string]bool
+	persistPanic string
 }
 
 var c07ctl *c07Ctl
@@ -113,6 +117,13 @@ func c07Err(kind, key string) error {
 		return boltz.NewReferenceByIdError("harness veto", key, "referrer", "r", "field")
 	case "dup":
 		return &boltz.UniqueIndexDuplicateError{Field: "harness veto", Value: key, EntityType: "harness"}
+	case "panic":
+		// the constraint does not raise an error: it panics (nil dereference), store_c07_panic.go
+		stage := "P"
+		if c07ctl != nil {
+			stage = c07ctl.stage
+		}
+		c07PnNilDeref("constraint-" + stage)
 	}
 	return errors.Errorf("vetoed by the C07 harness constraint: %s", key)
 }
@@ -202,6 +213,10 @@ func c07Open(w *wiring, dir string) (*harnessDb, error) {
 		if c07ctl != nil && ctx.Bucket.HasError() {
 			c07ctl.persist[def.Name] = true
 		}
+		if c07ctl != nil && c07ctl.persistPanic != "" && c07ctl.persistPanic == def.Name {
+			c07ctl.persistPanic = ""
+			c07PnNilDeref("persist") // the entity strategy panics after it wrote this level's fields
+		}
 	}
 	return h, nil
 }
@@ -220,6 +235,7 @@ func c07RunTx(h *harnessDb, t *hTx) string {
 	ctl.stage, ctl.kind = "", ""
 	ctl.vetoes = map[string]bool{}
 	ctl.persist = map[string]bool{}
+	ctl.panics, ctl.persistPanic = nil, ""
 	run := *t
 	for _, v := range t.Vetoes {
 		if v.Store == c07PseudoVeto {
@@ -242,6 +258,7 @@ func c07RunTx(h *harnessDb, t *hTx) string {
 	c07HkReset()
 	seg := c07RunTxRecover(h, &run)
 	hk := c07HkCollect(strings.Contains(seg, " COMMIT"))
+	hk = c07PnTokens() + hk // PANIC-RAISED witnesses (store_c07_panic.go)
 	if len(ctl.persist) > 0 || hk != "" {
 		var lv []string
 		for l := range ctl.persist {
@@ -281,6 +298,9 @@ func c07RunTxRecover(h *harnessDb, t *hTx) (seg string) {
 		}
 	}()
 	if _, _, has := c07CtxParse(t); has { // store_c07_ctx.go: registrations through derived contexts
+		return c07CtxRunTx(h, t)
+	}
+	if _, has := c07PnParse(t); has { // store_c07_panic.go: panicking steps; the same executor observes the panic at the call
 		return c07CtxRunTx(h, t)
 	}
 	return h.runTx(t)
@@ -511,6 +531,8 @@ func (g *histGen) c07Decorate(t *hTx) {
 	g.c07CtxDecorate(t)
 	// commit actions on more transactions; the marker that makes the model print its hook counts (store_c07_hooks.go)
 	g.c07HkDecorate(t)
+	// failures that surface as a panic (store_c07_panic.go)
+	g.c07PnDecorate(t)
 }
 
 func (g *histGen) c07GenAndRun(h *harnessDb) ([]hTx, string) {
@@ -637,6 +659,11 @@ func runStoreC07(o *opts) error {
 				default:
 					stats["tx_"+v.Store]++
 				}
+			}
+		}
+		for k, seg := range strings.Split(obs, " | ") {
+			if k < len(txs) {
+				c07PnStats(stats, &txs[k], seg+" ")
 			}
 		}
 		stats["obs_commit"] += strings.Count(obs, " COMMIT")
